@@ -16,6 +16,14 @@ STRENGTH={
  "C13":"a new exchange from either side right after the call in which the randomness fault fired (before any End())",
  "C15":"the reference binding is derived from the history instead of being read from the conversation",
  "C20":"the quick tier includes the whitespace-tag script, so the exhaustive part sees the write to spare capacity"}
+BEFORE.update({
+ "C01-2":"missed (caught by C07)","C02-2":"missed","C03-2":"caught","C04-2":"caught","C05-2":"caught","C06-2":"missed by C06 (caught by C09)","C07-2":"caught","C08-2":"caught","C09-2":"missed","C10-2":"missed (caught by C09)"})
+STRENGTH.update({
+ "C01-2":"C01: a completed refresh must report a new SSID; C10: refresh event, SSID re-derived at every completion",
+ "C02-2":"cleartext lines injected into sessions started by query / whitespace tag (fresh, after traffic, finished, required encryption): what Receive returns must be flagged as unencrypted",
+ "C06-2":"C06 now compares the semantic content of every emitted data message (key ids, counter, flag, text, TLVs); which MAC keys are disclosed stays C09's subject (it catches this change)",
+ "C09-2":"injected data messages with a wrong MAC for each of the four key pairs the receiver currently considers",
+ "C10-2":"every disclosed value must be the receiving MAC key of a key pair known to the reference"})
 rows=[]
 for d in sorted(glob.glob(os.path.join(ROOT,'seeded','C*'))):
     pid=os.path.basename(d)
@@ -29,7 +37,11 @@ for d in sorted(glob.glob(os.path.join(ROOT,'seeded','C*'))):
         needs=' '.join(txt.split())[:400]
     m['needs_to_manifest']=needs
     json.dump(m,open(os.path.join(d,'meta.json'),'w'),indent=1)
-    v=m.get('checks',{}).get(pid,'not run')
+    base=pid.split('-')[0]
+    cks=m.get('checks',{})
+    v=cks.get(base,'not run')
+    others='; '.join('%s: %s'%(k,x.split(' findings')[0]) for k,x in sorted(cks.items()) if k!=base)
+    if others: v += ' (also '+others+')'
     rows.append((pid,m.get('confirmed'),BEFORE.get(pid,'?'),v,STRENGTH.get(pid,'-')))
 out=["# Property-breaking changes written by independent sub-agents","",
 "Each sub-agent got only the text of one property and a scratch worktree of coyim/otr3 and was asked for a change that breaks the property,",
